@@ -1,2 +1,3 @@
 SPECIFICATION Spec
 VIEW ViewQ
+INVARIANT ConcInvS
